@@ -282,6 +282,9 @@ func runC02(r *ev.Run, thorough bool) {
 		})
 		// complete size sweeps (encode direction, and the reference wire of each through the decoder)
 		st, sl := sweepBounds(thorough)
+		if thorough {
+			st, sl = 8300, 2000 // both directions per value: half of C01's thorough bound
+		}
 		ns := int64(0)
 		valenum.Enum(t, valenum.Opts{K: 1, SweepText: st, SweepList: sl}, func(c *valenum.Case) bool {
 			if c.NDev == 0 {
